@@ -109,6 +109,11 @@ def query_cases(rng, n):
         nf = rng.choice([0, 0, 1, 1, 2])
         if nf:
             text, _ = faults.token_faults(text, rng, nf)
+        if rng.random() < 0.06:
+            # call sites with the wrong number of arguments / calls of things that are not functions
+            text = re.sub(r"f1\([^()]*\)|\bi\b", lambda mm: rng.choice(["f1()", "f1(1, 2)", "f1(i, j, 3)", "i(1)", "P1(1)", "a(1)", "f1(f1())",
+                                                                     "s.f(2)", "f1"]), text, count=1)
+            form = form + "+arity"
         model = Q.MODEL
         out.append(("query:" + form, Case("q%d" % i, [Step("parse_doc", 0, "xml_buffer", 1, 0, model),
                                                        Step("query", 0, "w", text)], timeout=30)))
@@ -127,6 +132,7 @@ def model_cases(rng, n):
             hm.append(("snippet-global", xmlgen.simple_model(decl=snip)))
         else:
             hm.append(("snippet-local", xmlgen.simple_model(tdecl=snip)))
+    hm += workloads.dynamic_models(rng, max(60, n // 8))
     for i, (tag, xml) in enumerate(hm):
         x = rng.random()
         newxta = 1 if rng.random() < 0.9 else 0
@@ -218,8 +224,33 @@ FAMILIES = {
     "many-processes": lambda n: xmlgen.simple_model(system="\n".join("P%d = P();" % i for i in range(n)) + "\nsystem " + ", ".join("P%d" % i for i in range(n)) + ";"),
     "select-list": lambda n: xmlgen.simple_model(edges=[("id0", "id0", [("select", ", ".join("s%d : int[0,1]" % i for i in range(n)))])]),
     "unary-minus-chain": lambda n: xmlgen.simple_model(decl="int v;", edges=[("id0", "id0", [("guard", "- " * n + "v < 0")])]),
+    # right-nested chains: one visit per nesting level is linear, a double visit per level is exponential
+    "assign-chain-update": lambda n: xmlgen.simple_model(decl="int v;", edges=[("id0", "id0", [("assignment", "v = " * _depth(n) + "1")])]),
+    "assign-chain-function": lambda n: xmlgen.simple_model(decl="int v; void f() { " + "v = " * _depth(n) + "1; }"),
+    "call-nesting": lambda n: xmlgen.simple_model(decl="int g(int a) { return a; } int v = " + "g(" * _depth(n) + "1" + ")" * _depth(n) + ";"),
+    "index-nesting": lambda n: xmlgen.simple_model(decl="int a[2]; int v;", edges=[("id0", "id0", [("guard", "a[" * _depth(n) + "0" + "]" * _depth(n) + " > 0")])]),
+    "inline-if-chain": lambda n: xmlgen.simple_model(decl="int v;", edges=[("id0", "id0", [("assignment", "v = " + " ".join("v > %d ? %d :" % (i, i) for i in range(_depth(n))) + " 0")])]),
+    "imply-chain-guard": lambda n: xmlgen.simple_model(decl="bool b;", edges=[("id0", "id0", [("guard", " imply ".join(["b"] * min(n, 2000)))])]),
+    # internal entities referring to each other (each level ten times the previous one): the reader never asks libxml2 to
+    # substitute entities, so the declarations must stay inert
+    "entity-nesting": lambda n: _entity_model({125: 4, 250: 5, 500: 6, 1000: 7, 2000: 8}.get(n, 8)),
     "initialiser-list": lambda n: xmlgen.simple_model(decl="int a[%d] = { %s };" % (n, ", ".join(["1"] * n))),
 }
+def _depth(n):
+    """nesting depths the grammar's fixed parser stack still accepts (about 2 stack slots per level)"""
+    return {125: 16, 250: 32, 500: 48, 1000: 64, 2000: 80}.get(n, 80)
+
+
+def _entity_model(levels):
+    ents = ['<!ENTITY e0 "int zz; ">']
+    for i in range(1, levels):
+        ents.append('<!ENTITY e%d "%s">' % (i, ("&e%d;" % (i - 1)) * 10))
+    x = xmlgen.simple_model(decl="int v; &e%d;" % (levels - 1)).replace("&amp;e", "&e")
+    a = x.index("<!DOCTYPE")
+    b = x.index(">", a)
+    return x[:a] + "<!DOCTYPE nta [ %s ]" % " ".join(ents) + x[b:]
+
+
 STEP_FIXED = 2 * 10 ** 9
 STEP_PER_BYTE = 50000
 
